@@ -6,7 +6,6 @@ import (
 	"time"
 
 	"github.com/gr33nbl00d/caddy-revocation-validator/config"
-	"github.com/gr33nbl00d/caddy-revocation-validator/core"
 	"github.com/gr33nbl00d/caddy-revocation-validator/crl/crlrepository"
 	"github.com/gr33nbl00d/caddy-revocation-validator/zz_verif/verifrt"
 )
@@ -90,20 +89,32 @@ func VerifC15_Known() {
 	switch scenario {
 	case 0: // provisioning of configured lists
 		crlrepository.VerifSetServer(urlB, true, crlrepository.VerifNewCRL("B", "CN=I1", s1))
-		crlrepository.VerifSetServer(fileC, true, crlrepository.VerifNewCRL("C", "CN=I1", s2))
-		c.crlConfig.CRLUrls = []string{urlB}
-		c.crlConfig.CRLFiles = []string{fileC}
-		chains := core.NewCertificateChains(nil, nil)
-		e1 := c.addCrlUrlsFromConfig(chains)
-		e2 := c.addCrlFilesFromConfig(chains)
+		// the configured file is a symbolic link that the publisher re-points to every new list
+		// (Kubernetes ConfigMap / "current.crl" style); the list it pointed to before is deleted
+		crlrepository.VerifSetLink(fileC, fileC+".v1")
+		crlrepository.VerifSetServer(fileC+".v1", true, crlrepository.VerifNewCRL("C", "CN=I1", s2))
+		// a second validator (own work_dir state: the first one is cleaned up) provisioned by the real Provision
+		// with the lists configured
+		_ = c.Cleanup()
+		var perr error
+		c, perr = provisionChecker(verifrt.Param("disk", 0) == 1, fetch, false, sig, []string{urlB}, []string{fileC})
 		verifrt.Reach("provision")
-		verifrt.Assert(e1 == nil && e2 == nil, "acceptable configured CRLs provision in every fetch mode")
+		verifrt.Assert(perr == nil, "acceptable configured CRLs provision in every fetch mode")
+		if perr != nil {
+			return
+		}
 		verifrt.Assert(revoked(s1) && revoked(s2), "configured CRLs are in force when provisioning returns")
 		for round := 0; round < 2; round++ {
 			sn := sym("sn")
 			crlrepository.VerifSetServer(urlB, true, crlrepository.VerifNewCRL("Bn", "CN=I1", sn))
+			sf := sym("sf")
+			next := fileC + []string{".v2", ".v3"}[round]
+			crlrepository.VerifSetServer(next, true, crlrepository.VerifNewCRL("Cn", "CN=I1", sf))
+			crlrepository.VerifSetServer(fileC+[]string{".v1", ".v2"}[round], false, nil)
+			crlrepository.VerifSetLink(fileC, next)
 			c.crlRepository.UpdateCRLs()
 			verifrt.Assert(revoked(sn), "a configured CRL is refreshed by every later tick")
+			verifrt.Assert(revoked(sf), "a configured crl_file is read again where its path points NOW (a re-pointed symbolic link is followed)")
 		}
 	case 1: // CDP list: first load (active or background), then a periodic refresh to a new list
 		crlrepository.VerifSetServer(urlA, true, crlrepository.VerifNewCRL("A1", "CN=I1", s1))
